@@ -20,9 +20,10 @@ TRUSTED = ["hand model ESRVerif/Model/Aifeyn.lean of str.lstrip/isdigit/int, get
            "harness/extractors/aifeyn.py: translation of aifeyn_complexity's body and of generate_equations' writer blocks, and the "
            "classification of the param_list expression at the two call sites in fit_single.py",
            "harness/extractors/_norm_c08.py: semantics-preserving normalisations applied before translation -- N1 one level of "
-           "single-return helper inlining (atomic arguments), N2 loop+append -> comprehension with guard inversion, N3 De Morgan / double "
+           "single-return helper inlining (atomic arguments; N1b also a one-expression `def`/`lambda` nested in the anchored function, "
+           "beta-reduced; N1c at the fit_single call sites a straight-line module helper replaced by its value expression), N2 loop+append -> comprehension with guard inversion, N3 De Morgan / double "
            "negation / != vs not == in tests, N4 unrolling of loops over literal tables, N5 single-use temporary before a call statement, "
-           "N6 string templates (% / f-string / + / str() / join) over declared-type holes, N7 forward symbolic evaluation of straight-line "
+           "N6 string templates (% / f-string / + / str() / join / positional str.format) over declared-type holes, N7 forward symbolic evaluation of straight-line "
            "bindings, N8 index/enumerate loops as direct iteration; in aifeyn.py: SSA scalars, int(a != b) = (1 if a != b else 0) = "
            "`if a != b: x += 1`, arr.sum() = np.sum(arr) on syntactic ndarrays only, canonical operand order of + * != on pure scalars "
            "(side conditions in the two module docstrings)",
